@@ -280,7 +280,11 @@ func negotiateSession(ctx context.Context, location, origin jid.JID, rw io.ReadW
 
 	// Call negotiate until the ready bit is set.
 	var data interface{}
-	for s.state&Ready == 0 {
+	// Keep negotiating until the session is ready and no stream restart is
+	// pending (a feature may ask for a restart on a session that another
+	// feature of the same list already made ready).
+	restart := false
+	for s.state&Ready == 0 || restart {
 		var mask SessionState
 		var err error
 		// Clear the info if the stream was restarted (but preserve to/from so that
@@ -299,6 +303,7 @@ func negotiateSession(ctx context.Context, location, origin jid.JID, rw io.ReadW
 		if err != nil {
 			return s, err
 		}
+		restart = rw != nil
 		if rw != nil {
 			for k := range s.features {
 				delete(s.features, k)
